@@ -10,5 +10,6 @@ def check(ctx):
     typestate.refusal_before_mutation(ctx, 'C14-T3')
     typestate.no_self_dependence(ctx, 'C14-T4')
     typestate.own_column_only(ctx, 'C14-T5')
+    typestate.queries_are_pure(ctx, 'C14-T6')
     ctx.undecided += ['equality of recomputed tables with the canonical ones (rests on determinism, C09, '
                       'and on T4: a stage reads none of its own earlier output)']
